@@ -150,7 +150,7 @@ def statuses(w, text, docs):
 
 def shard(ctx):
     rng = ctx.rng("c14")
-    o = gen.Opts(types=True, calls=True, msgs=True, max_rules=3, max_lines=3)
+    o = gen.Opts(types=True, calls=True, msgs=True, max_rules=3, max_lines=3, keys_filters=True, some_lets=True)
     nprog = 8 if ctx.quick else 260
     cover = ctx.res.extra.setdefault("class_context_programs", core.Counter())
     for t in range(nprog):
